@@ -1327,6 +1327,7 @@ func runC03(c *Ctx) {
 		c03DupRandom(c)
 	}
 	c03HistSystematic(c)
+	c03HistPreOps(c)
 	for i := c.Budget(50, 5000); i > 0; i-- {
 		c03HistSession(c)
 	}
